@@ -147,7 +147,8 @@ def classify_blank():
             continue
         for sp in [",", "،", "——", "—", "–", ".", " "]:
             pieces = original.split(sp)
-            if len(pieces) > 1 and not pieces[0].strip(" .,:()[]-'"):
+            # a punctuation-only piece of the ORIGINAL chunk is paired by index with a piece of the translated chunk
+            if len(pieces) > 1 and original.strip(" .,:()[]-'") and any(not pc.strip(" .,:()[]-'") for pc in pieces):
                 misaligned = True
     if returned_blank and misaligned:
         return "split-misaligned"
